@@ -4,6 +4,7 @@ from vf.props.progbase import ProgProp
 
 class C05(ProgProp):
     id = "C05"
+    use_tables = True
     aspects = ("lines",)
     rule = ("case = (bytecode version, program) with drawn line gaps (0..400 blank lines, multi-line expressions, "
             "decorators) / stdlib sample; oracle: list(opc.findlinestarts(code)) == list(dis.findlinestarts) of the "
